@@ -158,6 +158,11 @@ static const char *const A_HM_MS[NALPHA] = {
 	"12:30", "45:30", "23:59", "59:59", "00:00", "24:00", "foo", "", "07:08", "30:45",
 };
 
+/* instants around leap-second table entries, later ones first (TAI and GPS look the table up) */
+static const char *const A_LEAP[NALPHA] = {
+	"2017-06-01T00:00:00", "2016-12-31T23:59:59", "2017-01-01T00:00:00", "2012-06-30T23:59:59", "2012-07-01T00:00:01", "1980-01-06T00:00:00",
+	"foo", "", "1972-06-30T23:59:59", "2040-01-01T00:00:00",
+};
 #define K_MIXED	"mixed-operands"
 #define K_CAL	"calendar-history"
 #define K_MFMT	"multi-format"
@@ -205,7 +210,12 @@ static const struct inv_s invs[] = {
 	{"-i-mdy-i-dmy-S", {"-i", "%m/%d/%Y", "-i", "%d/%m/%Y", "-S", NULL}, M_STDIN, A_DMY_MDY, K_MFMT},
 	{"-i-ymd-i-ydm", {"-i", "%Y%m%d", "-i", "%Y%d%m", NULL}, M_ARGS | M_STDIN, A_YMD_YDM, K_MFMT},
 	{"-i-hm-i-ms", {"-i", "%H:%M", "-i", "%M:%S", NULL}, M_ARGS | M_STDIN, A_HM_MS, K_MFMT},
+	{"--zone-TAI", {"--zone", "TAI", NULL}, M_ARGS | M_STDIN, A_LEAP, "virtual-zone"},
+	{"--zone-GPS", {"--zone", "GPS", NULL}, M_ARGS | M_STDIN, A_LEAP, "virtual-zone"},
+	{"--from-zone-TAI", {"--from-zone", "TAI", NULL}, M_ARGS | M_STDIN, A_LEAP, "virtual-zone"},
+	{"--from-zone-GPS--zone-TAI", {"--from-zone", "GPS", "--zone", "TAI", NULL}, M_ARGS | M_STDIN, A_LEAP, "virtual-zone"},
 #elif defined C13_TOOL_dadd
+	{"--zone-TAI+1s", {"--zone", "TAI", "+1s", NULL}, M_STDIN, A_LEAP, "virtual-zone"},
 	{"ymcw+1d", {"+1d", NULL}, M_STDIN, A_YMCW, K_CAL},
 	{"ymcw+1d-53w-1d", {"--", "+1d", "-53w", "-1d", NULL}, M_STDIN, A_YMCW, K_CAL},
 	{"ymcw+1mo", {"+1mo", NULL}, M_STDIN, A_YMCW, K_CAL},
